@@ -33,7 +33,9 @@ OBLIGATIONS = [
     "Grog.C04.walk_return_enabled",
     "Grog.C04.errchan_no_deadlock",
     "Grog.C04.errchan_reports_failure",
+    "Grog.C04.errchan_terminates",
     "Grog.C04.errchan_deadlock_witness",
+    "Grog.C04.errchan_deadlock_witness2",
     "Grog.C04.lost_wakeup_witness",
 ]
 ASSUMPTIONS = [
